@@ -24,6 +24,10 @@ FORMS = {
     "dcposkw": ("", "TYPE(x, zz=1)"),          # a positional mapping together with a keyword
     "field": ("W = SC('W', Schema, Options(OPTS), a=(ANN,))", "W(a=x)"),
     "dfield": ("W = SC('W', DataClass, Options(OPTS), a=(ANN,))", "W(a=x)"),
+    # assignment to an optional field of an existing instance (attribute / item / DataClass attribute)
+    "setattr": ("W = SC('W', Schema, Options(OPTS), a=(ANN, Field(required=False)))", "SETA(W(), x)"),
+    "setitem": ("W = SC('W', Schema, Options(OPTS), a=(ANN, Field(required=False)))", "SETA(W(), x, True)"),
+    "dsetattr": ("W = SC('W', DataClass, Options(OPTS), a=(ANN, Field(required=False)))", "SETA(W(), x)"),
     "from": ("W = SC('W', Schema, None, a=(ANN,))", "W.__from__({'a': x}, options=Options(OPTS))"),
     "param": ("ENTERED = []\n@utype.parse(options=Options(OPTS))\ndef W(a: ANN):\n    ENTERED.append(1)\n    return a", "W(x)"),
     "kwparam": ("ENTERED = []\n@utype.parse(options=Options(OPTS))\ndef W(*, a: ANN):\n    ENTERED.append(1)\n    return a", "W(a=x)"),
